@@ -14,6 +14,7 @@ import SqlgrepModel.Lemmas.ParseCreateMono
 -/
 namespace Sqlgrep
 namespace Parse
+namespace Concat
 
 /-! ### lists and the first boundary token -/
 
@@ -451,5 +452,6 @@ theorem parseTokens_append (hT : InertBoundary T) (c : PTok) (r' : List PTok) (e
         · simp only [hemp, if_true, createsOf_opOfCreates csB hneB]
         · simp only [hemp, Bool.false_eq_true, if_false]; rfl
 
+end Concat
 end Parse
 end Sqlgrep
